@@ -92,9 +92,9 @@ impl PPipe {
         let mut put = |w: String, words: &mut Vec<String>, r: &mut Rng| {
             if !words.is_empty() {
                 match r.below(12) {
-                    0 => words.push("\n".to_string()),
+                    0 => words.push(r.pick(&["\n", "\n", "\r\n", "\r"]).to_string()),
                     1 => words.push("  ".to_string()),
-                    2 if plus => words.push(r.pick(&[" # a comment\n", " # a comment (EPSG #4230) # and more\n", " ## doubled\n", " #\n"]).to_string()),
+                    2 if plus => words.push(r.pick(&[" # a comment\n", " # a comment (EPSG #4230) # and more\n", " ## doubled\n", " #\n", " # a comment\r\n", " # a comment\r"]).to_string()),
                     _ => words.push(" ".to_string()),
                 }
             }
@@ -237,6 +237,9 @@ pub fn generate(g: &mut Gen, thorough: bool) {
     for t in [
         "proj=pipeline step proj=utm zone=32 step init=epsg:4326",
         "proj=utm zone=32 init=epsg:25832",
+        "proj=tmerc lon_0=9  # comment\rx_0=500000 k=0.9996",
+        "+proj=pipeline\r+step +proj=addone\r+step +proj=helmert +x=3\r",
+        "+proj=pipeline\r\n+step +proj=addone # one\r\n+step +inv +proj=addone\r\n",
         "+proj=pipeline +init=epsg:25832 +step +proj=utm +zone=32",
         "proj=pipeline init=epsg:25832 step proj=utm zone=32 step proj=addone",
         "proj=pipeline ellps=intl init=epsg:25832 step proj=cart",
